@@ -444,6 +444,7 @@ def _cz(a): return "(%s)%%Z" % a
 
 def _replay_c11(case, model):
     c = _sx(case); m = _sx(model)
+    if len(c) > 7: return None    # the "dyn" flavour (a dynamic route) is compared through the extracted model only
     inp = "c11_out %s %s %s %s %s %s" % (_cbool(c[1]), _cbool(c[2]), _clist([_cstr(g) for g in c[3]], "str"), _cstr(c[4]), _cstr(c[5]), _cstr(c[6]))
     if m == "panic" or m == ["panic"]: exp = "None"
     else: exp = "(Some (%s, %s, %s))" % (_cstr(m[0][1]), _cbool(m[1][1]), _cbool(m[2][1]))
